@@ -221,6 +221,7 @@ def _erase_case(t, eid):
 
 def oracle_c01(script, c_lines):
     held = {"bt": {}, "rb": {}}
+    aux = {"bt": {}, "rb": {}}      # what the swap partner holds
     prev = {"bt": None, "rb": None}
     for i, op in enumerate(script):
         w = op.split()
@@ -231,7 +232,7 @@ def oracle_c01(script, c_lines):
         line = c_lines[i]
         if w[0] != "mode" and w[1] in ("insat", "insatr"):
             return None     # arbitrary hints are outside the property's domain
-        if w[0] != "mode" and w[1] in ("ins", "insh") and int(w[2]) != 0 and int(w[2]) in held[w[0]]:
+        if w[0] != "mode" and w[1] in ("ins", "insh") and int(w[2]) != 0 and (int(w[2]) in held[w[0]] or int(w[2]) in aux[w[0]]):
             return None     # inserting an element that is held: outside the interface
         if line.startswith("STOP"):
             return "op %d '%s': implementation stopped with '%s'" % (i, op, line)
@@ -246,8 +247,9 @@ def oracle_c01(script, c_lines):
         pre = "op %d '%s': " % (i, op)
         if o in ("ins", "insh"):
             e = int(w[2])
-            if e == 0:      # "lowest id not in the tree"
-                e = min(x for x in range(1, len(h) + 2) if x not in h)
+            if e == 0:      # "lowest id not in the tree (nor in its swap partner)"
+                a = aux[w[0]]
+                e = min(x for x in range(1, len(h) + len(a) + 2) if x not in h and x not in a)
             if e in h:
                 return None
             h[e] = int(w[3])
@@ -300,6 +302,10 @@ def oracle_c01(script, c_lines):
             if m.group(2) != "1":
                 return pre + "an element was written after its clear callback"
             h.clear()
+        elif o == "swap":
+            held[w[0]], aux[w[0]] = aux[w[0]], held[w[0]]
+            h = held[w[0]]
+            prev[w[0]] = None
         # state
         if st["bad"] is not None:
             return pre + "parent link of node %s does not point back at its parent" % st["bad"]
@@ -610,6 +616,10 @@ def corpus(prop=None):
              c + " find 2147483647", c + " erase -2147483648", c + " fe rev 1", c + " clear", c + " clear",
              c + " ins 1 1", c + " fe fwd 0"],
             [c + " erase 1", c + " find 1", c + " fe fwd -1", c + " clear", c + " insh 1 1", c + " erase 1"],
+            # swap with the (initially empty) partner tree and back
+            [c + " swap", c + " ins 1 5", c + " ins 2 3", c + " ins 3 8", c + " swap", c + " find 5", c + " ins 4 1",
+             c + " ins 5 9", c + " fe fwd -1", c + " swap", c + " fe rev -1", c + " erase 3", c + " find 1", c + " swap",
+             c + " erase 1", c + " clear", c + " swap", c + " fe fwd -1", c + " clear", c + " ins 0 4", c + " swap"],
         ]
     # deep, degenerate shapes of the unbalanced tree (paths longer than 64 and 128 levels below
     # a node that still has its other subtree pending): traversals, clear, erase of the top
@@ -645,8 +655,13 @@ def random_tree_scripts(rng, cont, count, length, nkeys, maxlive, hashed, insat=
         sc = ["mode hash"] if hashed else []
         cnt = {}
         live = 0
+        cnt2, live2 = {}, 0     # the swap partner
         grow = True
         for step in range(length):
+            if rng.random() < 0.012:
+                sc.append("%s swap" % cont)
+                cnt, cnt2, live, live2 = cnt2, cnt, live2, live
+                continue
             if live >= maxlive:
                 grow = False
             elif live == 0:
